@@ -58,6 +58,12 @@ def base_inputs(run, rng, n_frag, n_uni=0, n_open=0, corpus=True, tests=200):
     f = gen.fragments(rng.fork("frag"), n_frag, 8)
     ins += f
     tags += ["fragments"] * len(f)
+    mv = gen.mvar_stream(rng.fork("mvar"), max(200, n_frag // 20))
+    ins += mv
+    tags += ["mvar"] * len(mv)
+    lf = gen.lf_stream(rng.fork("lfall"), 120)
+    ins += lf
+    tags += ["lf"] * len(lf)
     if n_uni:
         u = gen.unicode_stress(rng.fork("uni"), n_uni)
         ins += u
@@ -921,6 +927,7 @@ def check_C15(run):
     n = tier_n(run, 2500, 50000)
     # --- candidate prefixes: grammar programs, arbitrary strings (most useful when they end in ';'), corpus
     cands = [grammar.render(p)[0] for p in grammar_programs(run, rng, n // 2, 3)]
+    gram = set(cands)   # statement-complete programs of the construct grammar: closed prefixes by construction
     raw = gen.fragments(rng.fork("fa"), n, 6) + gen.open_code(rng.fork("oa"), n // 2, 6) + gen.regression_corpus() + gen.unicode_stress(rng.fork("ua"), n // 6)
     r2 = rng.fork("semi")
     for s_ in raw:
@@ -929,8 +936,9 @@ def check_C15(run):
     cands += ["", ";", ";;", "* c;", "%* c;", "/*c*/;", "a;", "datalines;\n1\n;", "cards4;\nx\n;;;;", "%let a=1;", "%macro m; %mend;", "%m(1) * c;", "x='a;';", "%put a;", "%if 1 %then a;", "%do; %end;"]
     cands = list(dict.fromkeys(cands))
     ca = {v: impl.run_lex(v, cands, mode="lex") for v in ("debug", "release")}
-    closed_idx = [i for i, c in enumerate(ca["release"]) if c.src is not None and O.closed_prefix(O.Ctx(c, T))]
+    closed_idx = [i for i, c in enumerate(ca["release"]) if c.src is not None and (O.closed_prefix(O.Ctx(c, T)) or (cands[i] in gram and O.closed_prefix(O.Ctx(c, T), config=False)))]
     run.cov["prefix_candidates"] = len(cands)
+    run.cov["grammar_prefixes_not_left_in_initial_configuration"] = sum(1 for i, c in enumerate(ca["release"]) if cands[i] in gram and c.src is not None and O.closed_prefix(O.Ctx(c, T), config=False) and not O.closed_prefix(O.Ctx(c, T)))
     run.cov["closed_prefixes"] = len(closed_idx)
     # --- continuations
     Bs = list(gen.FR) + gen.fragments(rng.fork("fb"), n, 5) + gen.open_code(rng.fork("ob"), n // 3, 5) + gen.unicode_stress(rng.fork("ub"), n // 8)
@@ -945,6 +953,14 @@ def check_C15(run):
             pairs.append((i, Bs[rp.below(len(Bs))]))
     # every trigger fragment after a sample of prefixes of each kind
     for i in closed_idx[:: max(1, len(closed_idx) // tier_n(run, 40, 400))]:
+        for b in gen.FR:
+            if not b.startswith("\ufeff"):
+                pairs.append((i, b))
+    # generated programs after which the lexer is not back in its initial configuration (none on a lexer that
+    # satisfies C12): the residue is what a continuation can trip over, so each gets every trigger fragment
+    suspicious = [i for i in closed_idx if cands[i] in gram and not O.closed_prefix(O.Ctx(ca["release"][i], T))]
+    suspicious.sort(key=lambda i: len(cands[i]))
+    for i in suspicious[:tier_n(run, 40, 400)]:
         for b in gen.FR:
             if not b.startswith("\ufeff"):
                 pairs.append((i, b))
@@ -966,7 +982,8 @@ def check_C15(run):
         for (i, b), c_ab in zip(pairs, cab):
             a_case = ca[variant][i]
             b_case = cb[bidx[b]]
-            if a_case.outcome != "ok" or not O.closed_prefix(O.Ctx(a_case, T)):
+            by_construction = cands[i] in gram and not O.closed_prefix(O.Ctx(a_case, T)) and O.closed_prefix(O.Ctx(a_case, T), config=False)
+            if a_case.outcome != "ok" or not (by_construction or O.closed_prefix(O.Ctx(a_case, T))):
                 continue
             if b_case.outcome != "ok" or c_ab.outcome != "ok":
                 # panics/hangs belong to C01 unless only the composition fails
@@ -988,15 +1005,17 @@ def check_C15(run):
                 nbad += 1
                 if nbad <= 4:
 
-                    def fails(a, b_, _v=variant):
+                    def fails(a, b_, _v=variant, _bc=by_construction):
                         x = impl.run_lex(_v, [a, b_, a + b_], mode="lex", jobs=1)
-                        if len(x) < 3 or x[0].outcome != "ok" or x[1].outcome != "ok" or not O.closed_prefix(O.Ctx(x[0], T)):
+                        if len(x) < 3 or x[0].outcome != "ok" or x[1].outcome != "ok" or not (_bc or O.closed_prefix(O.Ctx(x[0], T))):
                             return False
                         if x[2].outcome != "ok":
                             return True
                         return bool(O.glue_check(x[0], x[1], x[2], T))
                     b_small = shrink_input(b, lambda y: fails(A0, y))
-                    a_small = shrink_input(A0, lambda y: fails(y, b_small))
+                    # a generated program that the lexer does not leave in the initial configuration is kept whole:
+                    # it is closed by construction only as generated
+                    a_small = A0 if by_construction else shrink_input(A0, lambda y: fails(y, b_small))
                     x = impl.run_lex(variant, [a_small, b_small, a_small + b_small], mode="lex", jobs=1)
                     msg = f[0]
                     try:
@@ -1004,7 +1023,8 @@ def check_C15(run):
                         msg = m2[0] if m2 else msg
                     except Exception:
                         pass
-                    run.violation("oracle", f"[{variant}] closed prefix A={a_small!r} followed by B={b_small!r}: {msg}", src=a_small + b_small,
+                    note = " (A is a generated statement-complete program, closed by construction; the lexer's own end configuration after A is not the initial one)" if by_construction else ""
+                    run.violation("oracle", f"[{variant}] closed prefix A={a_small!r} followed by B={b_small!r}: {msg}{note}", src=a_small + b_small,
                                   extra={"A": a_small, "B": b_small, "original_A": A0[:300], "original_B": b[:300]})
         run.count("pairs:" + variant, len(pairs))
         run.cov["streams"]["pairs:" + variant]["failures"] = nbad
@@ -1036,7 +1056,7 @@ def check_C15(run):
     if pairs:
         run.sample({"A": cands[pairs[len(pairs) // 2][0]][:200], "B": pairs[len(pairs) // 2][1][:200]})
     run.cov["rule"] = ("prefix candidates: rendered grammar programs, fragment/open-code/Unicode strings (also with a closing ';' variant appended), corpus; kept when the "
-                       "implementation's end-of-input snapshot is the initial configuration and the last token is a consumed ';' or a closed statement comment (DESIGN 6.4); "
+                       "implementation's end-of-input snapshot is the initial configuration and the last token is a consumed ';' or a closed statement comment (DESIGN 6.4); generated programs that end that way count as closed by construction even if the snapshot is not initial, and each such program is followed by every trigger fragment; "
                        "continuations: every trigger fragment, random fragment strings, open code, Unicode stress, grammar programs, look-behind-sensitive starts; "
                        "lex(A), lex(B), lex(A+B) by the implementation (debug, release), compared through the glue oracle; the same pairs through the extracted Coq compose_check")
     run.assumptions += ["proved: the composition statement for the production ';'* (every closed prefix of empty statements, every continuation of empty statements, release profile) and the boundary step from any open-code state",
